@@ -215,16 +215,15 @@ def run(tier, seed, replay=None):
             pd = len(s['bases'])
             tot = sum(a)
             supported = (tot <= 1) or (pd <= 2 and tot <= 3)
+        # parse every eval_h output of this query up front: H[bi][ti]
+        H = []
+        for bi, b in enumerate(betas):
+            tk2 = outs2[start + bi]
+            H.append([tk2.qlist() for _ in range(tk2.int())])
         for ti in range(n):
             evals += 1
             if s['rational'] and any(jump_at(b, t, tol) for b, t in zip(s['bases'], q['tuples'][ti])):
                 skipped_jump += 1
-                # still consume the tokens of this point
-                for bi, b in enumerate(betas):
-                    tk2 = outs2[start + bi]
-                    if ti == 0:
-                        tk2._n = tk2.int()
-                    tk2.qlist()
                 continue
             nontriv.add(C.case_hash([case['obj'], list(a), str(q['above']), [str(x) for x in q['tuples'][ti]]]))
             if not supported:
@@ -233,12 +232,7 @@ def run(tier, seed, replay=None):
                 continue
             if not betas:
                 continue
-            h = {}
-            for bi, b in enumerate(betas):
-                tk2 = outs2[start + bi]
-                if ti == 0:
-                    tk2._n = tk2.int()
-                h[b] = tk2.qlist()
+            h = {b: H[bi][ti] for bi, b in enumerate(betas)}
             if s['rational']:
                 exp = leibniz_quotient(h, a, dim)
                 if exp is None:
